@@ -178,7 +178,7 @@ theorem reweight_moves_only_to_or_from (H : Hasher) (R0 : Int) (ops : List Op) (
 
 /-! ### concurrency: one writer (any program), any number of readers, the RWMutex as in the code
 
-`Conc.exec H ops (Conc.init R0) sched` is the state after the schedule `sched` (any list of "writer steps",
+`Conc.exec H atomic ops (Conc.init R0) sched` is the state after the schedule `sched` (any list of "writer steps",
 "reader t calls Get(k)", "reader t steps"; disabled steps are skipped).  `log` holds every Get that returned,
 with its window `[lo, hi]` = [writer operations completed when it took the read lock, operations begun when it
 returned].  AddWithReplicas is TWO critical sections (Remove, then the insertion), so a Get may see the ring
@@ -186,16 +186,16 @@ without the node in between; that — and nothing else — is what a concurrent 
 
 /-- **every concurrent Get is a sequential Get** on the state after a prefix of the writer's program inside its
 window, or on the intermediate state (node removed, not yet re-inserted) of an adding operation in its window. -/
-theorem conc_get_explained (H : Hasher) (R0 : Int) (ops : List Op) (sched : List Conc.Act) :
-    ∀ e ∈ (Conc.exec H ops (Conc.init R0) sched).log, Conc.Explained H R0 ops e :=
-  (Conc.good_exec H R0 ops sched _ (Conc.good_init H R0 ops)).log
+theorem conc_get_explained (H : Hasher) (atomic : Bool) (R0 : Int) (ops : List Op) (sched : List Conc.Act) :
+    ∀ e ∈ (Conc.exec H atomic ops (Conc.init R0) sched).log, Conc.Explained H R0 ops e :=
+  (Conc.good_exec H atomic R0 ops sched _ (Conc.good_init H R0 ops)).log
 
 /-- **mutual exclusion**: while the writer is inside a critical section no reader is inside Get (so the two
 reads of Get see one state), in every reachable state. -/
-theorem conc_mutual_exclusion (H : Hasher) (R0 : Int) (ops : List Op) (sched : List Conc.Act) (t : Conc.Tid)
-    (h : Conc.holding (Conc.exec H ops (Conc.init R0) sched).wpc = true) :
-    (Conc.exec H ops (Conc.init R0) sched).rpc t = .idle :=
-  Conc.all_idle (Conc.good_exec H R0 ops sched _ (Conc.good_init H R0 ops)) h t
+theorem conc_mutual_exclusion (H : Hasher) (atomic : Bool) (R0 : Int) (ops : List Op) (sched : List Conc.Act) (t : Conc.Tid)
+    (h : Conc.holding (Conc.exec H atomic ops (Conc.init R0) sched).wpc = true) :
+    (Conc.exec H atomic ops (Conc.init R0) sched).rpc t = .idle :=
+  Conc.all_idle (Conc.good_exec H atomic R0 ops sched _ (Conc.good_init H R0 ops)) h t
 
 /-- the intermediate state of an adding operation represents the membership without the node -/
 theorem conc_mid_represents (H : Hasher) (R0 : Int) (ops : List Op) (n : Node) :
@@ -203,18 +203,18 @@ theorem conc_mid_represents (H : Hasher) (R0 : Int) (ops : List Op) (n : Node) :
   inv_remove H _ _ n (inv_run H R0 ops)
 
 /-- **a concurrent Get never panics** (no division by zero on the intermediate state either). -/
-theorem conc_get_never_panics (H : Hasher) (R0 : Int) (ops : List Op) (sched : List Conc.Act)
-    (e : Conc.Obs) (he : e ∈ (Conc.exec H ops (Conc.init R0) sched).log) : e.o ≠ .panic := by
-  obtain ⟨j, _, _, _, h | ⟨_, op, n, r, _, _, h⟩⟩ := conc_get_explained H R0 ops sched e he
+theorem conc_get_never_panics (H : Hasher) (atomic : Bool) (R0 : Int) (ops : List Op) (sched : List Conc.Act)
+    (e : Conc.Obs) (he : e ∈ (Conc.exec H atomic ops (Conc.init R0) sched).log) : e.o ≠ .panic := by
+  obtain ⟨j, _, _, _, h | ⟨_, op, n, r, _, _, h⟩⟩ := conc_get_explained H atomic R0 ops sched e he
   · rw [h]; exact get_never_panics_reachable H R0 _ _
   · rw [h]; exact get_never_panics (conc_mid_represents H R0 _ n) _
 
 /-- **a concurrent Get returns only members**: the returned node is, with at least one virtual node, in the
 membership after some prefix of the program inside the Get's window. -/
-theorem conc_get_member_only (H : Hasher) (R0 : Int) (ops : List Op) (sched : List Conc.Act)
-    (e : Conc.Obs) (he : e ∈ (Conc.exec H ops (Conc.init R0) sched).log) (v : Node) (hv : e.o = .node v) :
+theorem conc_get_member_only (H : Hasher) (atomic : Bool) (R0 : Int) (ops : List Op) (sched : List Conc.Act)
+    (e : Conc.Obs) (he : e ∈ (Conc.exec H atomic ops (Conc.init R0) sched).log) (v : Node) (hv : e.o = .node v) :
     ∃ j, e.lo ≤ j ∧ j ≤ e.hi ∧ ∃ c, (members R0 (ops.take j)).find v.repr = some (v, c) ∧ 0 < c := by
-  obtain ⟨j, h1, h2, _, h | ⟨_, op, n, r, _, _, h⟩⟩ := conc_get_explained H R0 ops sched e he
+  obtain ⟨j, h1, h2, _, h | ⟨_, op, n, r, _, _, h⟩⟩ := conc_get_explained H atomic R0 ops sched e he
   · exact ⟨j, h1, h2, get_member_only H R0 _ e.k v (by rw [← h, hv])⟩
   · obtain ⟨c, hf, hc⟩ := get_member (conc_mid_represents H R0 (ops.take j) n) e.k v (by rw [← h, hv])
     rw [find_del] at hf
@@ -244,23 +244,30 @@ theorem conc_mid_member_before_and_after (H : Hasher) (R0 : Int) (ops : List Op)
 
 /-- **a removed node is never returned, concurrently**: a repr that is no member after any prefix inside the
 Get's window (removed before the Get began, not re-added before it returned) is not the repr of the answer. -/
-theorem conc_removed_never_returned (H : Hasher) (R0 : Int) (ops : List Op) (sched : List Conc.Act)
-    (e : Conc.Obs) (he : e ∈ (Conc.exec H ops (Conc.init R0) sched).log) (rr : String)
+theorem conc_removed_never_returned (H : Hasher) (atomic : Bool) (R0 : Int) (ops : List Op) (sched : List Conc.Act)
+    (e : Conc.Obs) (he : e ∈ (Conc.exec H atomic ops (Conc.init R0) sched).log) (rr : String)
     (hgone : ∀ j, e.lo ≤ j → j ≤ e.hi → (members R0 (ops.take j)).find rr = none)
     (v : Node) (hv : e.o = .node v) : v.repr ≠ rr := by
-  obtain ⟨j, h1, h2, c, hf, _⟩ := conc_get_member_only H R0 ops sched e he v hv
+  obtain ⟨j, h1, h2, c, hf, _⟩ := conc_get_member_only H atomic R0 ops sched e he v hv
   intro heq
   rw [heq, hgone j h1 h2] at hf
   cases hf
 
 /-- a Get that overlaps no writer operation (`lo = hi`) is the sequential Get after `lo` operations. -/
-theorem conc_quiescent_get (H : Hasher) (R0 : Int) (ops : List Op) (sched : List Conc.Act)
-    (e : Conc.Obs) (he : e ∈ (Conc.exec H ops (Conc.init R0) sched).log) (hq : e.lo = e.hi) :
+theorem conc_quiescent_get (H : Hasher) (atomic : Bool) (R0 : Int) (ops : List Op) (sched : List Conc.Act)
+    (e : Conc.Obs) (he : e ∈ (Conc.exec H atomic ops (Conc.init R0) sched).log) (hq : e.lo = e.hi) :
     e.o = get H (run H R0 (ops.take e.lo)) e.k := by
-  obtain ⟨j, h1, h2, _, h | ⟨hlt, _⟩⟩ := conc_get_explained H R0 ops sched e he
+  obtain ⟨j, h1, h2, _, h | ⟨hlt, _⟩⟩ := conc_get_explained H atomic R0 ops sched e he
   · have : j = e.lo := by omega
     rw [h, this]
   · omega
+
+/-- **with AddWithReplicas as ONE critical section** (fixes/C15-add-single-critical-section.patch) every
+concurrent Get is linearizable: it is the sequential Get after some prefix of the program inside its window —
+the intermediate state does not exist. -/
+theorem conc_atomic_get_linearizable (H : Hasher) (R0 : Int) (ops : List Op) (sched : List Conc.Act) :
+    ∀ e ∈ (Conc.exec H true ops (Conc.init R0) sched).log, Conc.Linear H R0 ops e :=
+  (Conc.goodAtomic_exec H R0 ops sched _ ⟨Conc.good_init H R0 ops, rfl, by simp [Conc.init]⟩).lin
 
 set_option maxRecDepth 100000 in
 /-- non-vacuity: a schedule in which reader 7 runs Get between the two critical sections of a re-add and
@@ -273,7 +280,7 @@ example :
        .rget 7 ⟨"i", "1"⟩, .r 7, .r 7, .r 7,
        .w, .w,                        -- insertion
        .rget 8 ⟨"i", "1"⟩, .r 8, .r 8, .r 8]
-    ((Conc.exec Pinned.W [.addR Pinned.n 3, .addW Pinned.n 50] (Conc.init 0) sched).log.map
+    ((Conc.exec Pinned.W false [.addR Pinned.n 3, .addW Pinned.n 50] (Conc.init 0) sched).log.map
       fun e => (e.t, e.o, e.lo, e.hi)) = [(8, .node Pinned.n, 2, 2), (7, .none, 1, 2)] := by
   decide
 
